@@ -69,8 +69,10 @@ def run(chk):
         pass
 
     class XG:
-        def __init__(self, pts):
+        """ghost of interpolation.XGrid: the nodes and the log flag (also what the code gets when it builds a new XGrid itself)"""
+        def __init__(self, pts, log=True):
             self.raw = np.array(pts, dtype=object)
+            self.log = log
         def __len__(self):
             return len(self.raw)
 
@@ -91,7 +93,7 @@ def run(chk):
     for qed in (False, True):
         for missing in (set(), {22, 6, -6}, {22, 5, -5, 6, -6, 4}):
             eko = Ghost()
-            eko.xgrid, eko.mu20 = XG(x), mu20
+            eko.xgrid, eko.mu20 = XG(x, log=not qed), mu20          # a logarithmic grid in the QCD scenarios, a linear one in the QED scenarios
             eko.theory_card = C()
             eko.theory_card.order = (2, 1 if qed else 0)
             eko.operator_card = C()
@@ -117,7 +119,9 @@ def run(chk):
                 for tg in (None, "target"):
                     tag = f"C43[qed={qed},missing={len(missing)},rotate={rot},target={tg is not None}]"
                     saved = apply.interpolation.InterpolatorDispatcher
+                    saved_xg = apply.interpolation.XGrid
                     apply.interpolation.InterpolatorDispatcher = FakeDisp
+                    apply.interpolation.XGrid = XG
                     try:
                         pdfs, errs = apply.apply_pdf(eko, PDF(), None if tg is None else [Q(1, 10), Q(1, 2), Q(9, 10)], rot)
                     except Exception as e:
@@ -125,6 +129,7 @@ def run(chk):
                         continue
                     finally:
                         apply.interpolation.InterpolatorDispatcher = saved
+                        apply.interpolation.XGrid = saved_xg
                     R = vnp.eye(14) if not rot else vnp.array(br.rotate_flavor_to_unified_evolution if qed else br.rotate_flavor_to_evolution)
                     labels = br.flavor_basis_pids if not rot else (br.unified_evol_basis_pids if qed else br.evol_basis_pids)
                     for ep, op in eko.items():
@@ -146,8 +151,11 @@ def run(chk):
                             else:
                                 chk.eq_block(f"{tag}[{ep[0]}].error", np.array([errs[ep][l] for l in labels], dtype=object), wante, fn=fn, replay=rp, goal="errors: the same contraction with E")
                     if tg is not None:
-                        chk.ground(f"{tag}.interpolator_built_on_eko_grid", FakeDisp.args[0] is eko.xgrid and FakeDisp.args[1] == 3 and FakeDisp.args[2] is False, fn=fn,
-                                   goal="re-interpolation uses the EKO's grid and polynomial degree in x-space mode", replay=rp)
+                        g_ = FakeDisp.args[0]
+                        same_grid = g_ is eko.xgrid or (hasattr(g_, "raw") and hasattr(g_, "log") and len(g_.raw) == NX and all(T.lift(a).n == T.lift(b).n for a, b in zip(g_.raw, x)) and bool(g_.log) == bool(eko.xgrid.log))
+                        chk.ground(f"{tag}.interpolator_built_on_eko_grid", bool(same_grid) and FakeDisp.args[1] == 3 and FakeDisp.args[2] is False, fn=fn, replay=rp,
+                                   goal="re-interpolation uses the EKO's grid (its nodes AND its logarithmic / linear flag) and polynomial degree in x-space mode",
+                                   detail=f"grid handed to the dispatcher: nodes {getattr(g_, 'raw', g_)}, log = {getattr(g_, 'log', '?')}; the EKO's grid has log = {eko.xgrid.log}")
                     chk.configs += 1
     # apply_grids rejects wrong shapes
     try:
